@@ -148,7 +148,11 @@ class LatticeApp(object):
     """MapProxyApp on one lattice grid: layer `lay` <- cache `c` (file) <- WMS source `up` (faked)"""
 
     def __init__(self, g, srs='EPSG:3857', meta_size=(2, 2), meta_buffer=0, source_coverage=None, services=None,
-                 extra_conf=None, scale=1, featureinfo=False, wms_srs=None, grid_conf=None, upstream_version=None):
+                 extra_conf=None, scale=1, featureinfo=False, wms_srs=None, grid_conf=None, upstream_version=None,
+                 tile_source=False, under=None):
+        """tile_source: the upstream is a tile service on the same grid (URL template z/x/y) instead of a WMS;
+        under = dict(tw, th, ul): the cache of the layer is filled from ANOTHER cache `cu` (same extent and resolutions,
+        tiles of tw x th pixels, the other origin) which is filled from the upstream"""
         from mapproxy.config.loader import ProxyConfiguration
         from mapproxy.wsgiapp import MapProxyApp
         import mapproxy.client.http as http
@@ -164,6 +168,8 @@ class LatticeApp(object):
             src['wms_opts'] = {'featureinfo': True}
         if upstream_version:
             src.setdefault('wms_opts', {})['version'] = upstream_version
+        if tile_source:
+            src = {'type': 'tile', 'url': 'http://upstream.invalid/t/%(z)s/%(x)s/%(y)s.png', 'grid': 'g'}
         if source_coverage:
             src['coverage'] = {'bbox': [v * scale for v in source_coverage], 'srs': srs}
         conf = {
@@ -183,6 +189,11 @@ class LatticeApp(object):
         }
         if grid_conf:
             conf['grids']['g'] = grid_conf
+        if under:
+            conf['grids']['gu'] = dict(conf['grids']['g'], tile_size=[under['tw'], under['th']], origin='ul' if under['ul'] else 'll')
+            conf['caches']['cu'] = {'grids': ['gu'], 'sources': ['up'], 'format': 'image/png', 'meta_size': [2, 2], 'meta_buffer': 0,
+                                    'cache': {'type': 'file', 'directory': os.path.join(self.dir, 'cache_under')}}
+            conf['caches']['c']['sources'] = ['cu']
         if extra_conf:
             for k, v in extra_conf.items():
                 if isinstance(v, dict) and isinstance(conf.get(k), dict):
@@ -209,6 +220,20 @@ class LatticeApp(object):
             buf.headers = {'Content-type': 'text/plain'}
             buf.code = 200
             return buf
+        path = urlparse(url).path
+        if path.startswith('/t/'):
+            # a tile of the grid: the same picture as a WMS request for its bounding box
+            z, x, y = [int(v) for v in path[3:-4].split('/')]
+            g = self.g
+            r = g['res'][z]
+            x0 = g['bbox'][0] + x * r * g['tw']
+            if g['ul']:
+                y1 = g['bbox'][3] - y * r * g['th']
+                tb = [x0, y1 - r * g['th'], x0 + r * g['tw'], y1]
+            else:
+                y0 = g['bbox'][1] + y * r * g['th']
+                tb = [x0, y0, x0 + r * g['tw'], y0 + r * g['th']]
+            q = {'BBOX': ','.join(repr(v * self.scale) for v in tb), 'WIDTH': str(g['tw']), 'HEIGHT': str(g['th']), 'TILE': '%d/%d/%d' % (z, x, y)}
         self.log.append(q)
         bbox = [float(v) / self.scale for v in q['BBOX'].split(',')]
         if q.get('VERSION') == '1.3.0' and q.get('CRS') in ('EPSG:4326', 'EPSG:31467'):
